@@ -43,6 +43,7 @@ type Script struct {
 }
 
 type gen struct {
+	envoy  bool
 	values map[string]bool
 	rng    *rand.Rand
 	p      Profile
@@ -311,6 +312,11 @@ func Generate(p Profile, n int, seed int64) []Script {
 		}
 
 		sc := Script{Trace: i + 1, Default: !(p.NoDefault && rng.Intn(3) == 0)}
+		if p.Rich && i%4 == 3 {
+			sc.Mode = "envoy" // the conditions hold for the Envoy entry point as well; there a request may come without scheme
+		}
+
+		g.envoy = sc.Mode == "envoy"
 		sc.DefBt = sc.Default && rng.Intn(2) == 0
 		sets := map[string][]Rule{}
 
@@ -757,6 +763,10 @@ func (g *gen) probes(sets map[string][]Rule, _ []Rule) []Req {
 				r.Host = Hosts[g.rng.Intn(len(Hosts))]
 				if g.rng.Intn(3) == 0 {
 					r.Scheme = "https"
+				}
+
+				if g.envoy && g.rng.Intn(4) == 0 {
+					r.Scheme = "" // Envoy does not have to tell the scheme
 				}
 			}
 
